@@ -83,4 +83,4 @@ def body(case):
 
 
 def tests(tier):
-    return [TestSpec("rule-test", gen_case, body, {"quick": 6000, "thorough": 500000}, tape=1280)]
+    return [TestSpec("rule-test", gen_case, body, {"quick": 6000, "thorough": 500000}, tape=1280, fuzz={"thorough": 40000})]
